@@ -928,7 +928,12 @@ class EmbeddedSignature(Signature):
 
     def parse(self, packet):
         super(EmbeddedSignature, self).parse(packet)
-        self._sig.parse(packet)
+        # the embedded signature is exactly the rest of this subpacket
+        body = packet[:(self.header.length - 1)]
+        del packet[:(self.header.length - 1)]
+        self._sig.parse(body)
+        if len(body):
+            raise ValueError("embedded signature does not fill its subpacket")
 
 
 class IssuerFingerprint(Signature):
